@@ -471,7 +471,7 @@ fn alphabet() -> Vec<Op> {
         v.push(Op::AddGState(p));
     }
     v.push(Op::ChangeContent(0, 3));
-    v.push(Op::AddContents(1, 4));
+    v.push(Op::AddContents(1, 3));
     v.push(Op::AddToContent(0));
     v.push(Op::AddContents(1, 2));
     v.push(Op::Outline(1));
@@ -507,9 +507,9 @@ fn payload(kind: u8, counter: u32) -> Vec<u8> {
     match kind {
         0 => format!("BT ({}) Tj ET", counter).into_bytes(),
         1 => format!("q {} 0 0 1 0 0 cm Q % a longer replacement content {} that can be compressed well: aaaaaaaaaaaaaaaaaaaaaaaaaaaaaaaaaaaaaaaaaaaaaaaaaaaaaaaaaaaaaaaaaaaaaaaaaaaa", counter, counter).into_bytes(),
-        // several KiB of one repeated operator line: deflates far better than 100:1 (and 1000:1 for the longer one)
-        3 => format!("% {}\n{}", counter, "0 0 m 10 10 l S\n".repeat(700)).into_bytes(),
-        4 => format!("% {}\n{}", counter, "q Q\n".repeat(40_000)).into_bytes(),
+        // several KiB of one repeated operator: deflates far better than 100:1
+        // (kept to 6 KB: every state of the search holds its own copy of the document)
+        3 => format!("% {}\n{}", counter, "q Q\n".repeat(1500)).into_bytes(),
         _ => vec![],
     }
 }
@@ -1192,7 +1192,12 @@ fn main() {
                         let dg = state_digest(&d2, &m2);
                         let mut p = path.clone();
                         p.push(oi);
-                        results.lock().unwrap().push((p, d2, m2, dg));
+                        // the documents of the last level are never expanded: keep only their digests
+                        if dlevel + 1 == depth {
+                            results.lock().unwrap().push((p, Document::new(), Model::default(), dg));
+                        } else {
+                            results.lock().unwrap().push((p, d2, m2, dg));
+                        }
                     }
                     Err((f, msg)) => {
                         let mut p: Vec<Value> = path.iter().map(|i| op_json(&ops[*i])).collect();
